@@ -110,11 +110,15 @@ def gen_item(r, idx, defined, out):
             ext_body = "vec![%s { %s }, %s { %s }]" % (
                 name, ", ".join("%s: ext(0)" % n for n, _ in fs), name, ", ".join("%s: ext(1)" % n for n, _ in fs))
     else:
-        nv = r.choice([1, 2, 3, 3, 4, 5, 8])
-        vnames = r.sample(VARIANT_NAMES, nv)
+        nv = r.choice([1, 2, 3, 3, 4, 5, 8, 8, 17, 19, 33, 40])
+        if nv <= len(VARIANT_NAMES):
+            vnames = r.sample(VARIANT_NAMES, nv)
+        else:
+            vnames = r.sample(VARIANT_NAMES, len(VARIANT_NAMES)) + ["W%d" % k for k in range(nv - len(VARIANT_NAMES))]
+            r.shuffle(vnames)
         vdecls, arms, exts = [], [], []
         for vi, vn in enumerate(vnames):
-            form = r.choice(["unit", "unit", "newtype", "tuple", "named"])
+            form = r.choice(["unit", "unit", "newtype", "tuple", "named"]) if nv <= 8 or r.random() < 0.2 else "unit"
             if form == "unit":
                 vdecls.append(vn)
                 arms.append("%d => %s::%s," % (vi, name, vn))
